@@ -217,3 +217,143 @@ Section GenRHS.
 End GenRHS.
 """ % d
     return text, ["heom.py:KTHierarchyPropagator._ado_self_rhs", "heom.py:KTHierarchyPropagator._ado_cros_rhs (guards, negative-index read, three terms)"]
+
+
+# ------------------------------------------------------------------------------------------------ system parts of the bath couplings
+AGG = "/quantarhei/builders/aggregate_base.py"
+MOL = "/quantarhei/builders/molecules.py"
+
+
+def _only_diagonal_stores(stmts, var, what):
+    """every store into `var` (through .data or directly) inside stmts has the shape X[i, i] = 1.0 with textually identical
+    row and column index expressions; returns the list of index expressions (unparsed)"""
+    idx = []
+    for st in stmts:
+        for n in ast.walk(st):
+            tg = []
+            if isinstance(n, ast.Assign):
+                tg = n.targets
+            elif isinstance(n, ast.AugAssign):
+                tg = [n.target]
+            for t in tg:
+                base = t
+                while isinstance(base, (ast.Subscript, ast.Attribute)):
+                    base = base.value
+                if not (isinstance(base, ast.Name) and base.id == var) or base is t:
+                    continue
+                if isinstance(n, ast.AugAssign):
+                    raise Untranslatable("%s: augmented store into %s" % (what, ast.unparse(t)))
+                if not (isinstance(t, ast.Subscript) and isinstance(t.slice, ast.Tuple) and len(t.slice.elts) == 2):
+                    raise Untranslatable("%s: store %s is no element of a matrix" % (what, ast.unparse(t)))
+                r, c = t.slice.elts
+                if ast.unparse(r) != ast.unparse(c):
+                    raise Untranslatable("%s: store into %s is off the diagonal" % (what, ast.unparse(t)))
+                idx.append((ast.unparse(r), n.value))
+    return idx
+
+
+def sysops(repo):
+    """Aggregate._build (both branches that make the site projectors) and Molecule.get_SystemBathInteraction (the projector on the block
+    of one electronic state): operators created as zeros into which 1 is stored at diagonal positions only."""
+    out = {}
+    # ---- aggregate: the two `for i in range(1, Nop + 1):` loops below `if self._has_system_bath_interaction:`
+    fn = _src_of(repo + AGG, "AggregateBase._build")
+    guards = [n for n in ast.walk(fn) if isinstance(n, ast.If) and ast.unparse(n.test) == "self._has_system_bath_interaction"]
+    if len(guards) != 1:
+        raise Untranslatable("_build: `if self._has_system_bath_interaction:` found %d times" % len(guards))
+    loops = [n for n in ast.walk(guards[0]) if isinstance(n, ast.For) and ast.unparse(n.iter) == "range(1, Nop + 1)"]
+    if len(loops) != 2:
+        raise Untranslatable("_build: %d loops over the sites make system operators (2 expected)" % len(loops))
+    kinds = []
+    for lp in loops:
+        body = _live(lp.body)
+        if not (isinstance(body[0], ast.Assign) and ast.unparse(body[0].targets[0]) == "op1"
+                and ast.unparse(body[0].value) == "Operator(dim=self.HH.shape[0], real=True)"):
+            raise Untranslatable("_build: the system operator is created as %s" % ast.unparse(body[0])[:60])
+        if ast.unparse(body[-1]) != "iops.append(op1)":
+            raise Untranslatable("_build: the system operator loop ends with %s" % ast.unparse(body[-1])[:60])
+        st = _only_diagonal_stores(body[1:-1], "op1", "_build")
+        if len(st) != 1 or not (isinstance(st[0][1], ast.Constant) and st[0][1].value == 1.0):
+            raise Untranslatable("_build: stores into the system operator: %s" % [(i, ast.unparse(v)) for i, v in st])
+        inner = body[1]
+        if isinstance(inner, ast.For):
+            if ast.unparse(inner.iter) != "self.vibindices[i]" or ast.unparse(inner.target) != st[0][0]:
+                raise Untranslatable("_build: vibronic projector runs over %s" % ast.unparse(inner.iter))
+            kinds.append("vib")
+        else:
+            if st[0][0] != ast.unparse(lp.target):
+                raise Untranslatable("_build: electronic projector stored at %s" % st[0][0])
+            kinds.append("el")
+    if sorted(kinds) != ["el", "vib"]:
+        raise Untranslatable("_build: system operator loops of kinds %s" % kinds)
+    for other in ast.walk(guards[0]):
+        if isinstance(other, ast.Call) and ast.unparse(other.func) == "iops.append" and not any(other in ast.walk(lp) for lp in loops):
+            raise Untranslatable("_build: a system operator is appended outside the two projector loops")
+    # ---- molecule: KK[a:b, a:b] = numpy.diag(numpy.ones(ldim[state], dtype=REAL)) with a = sum of ldim below state, b = a + ldim[state]
+    fn = _src_of(repo + MOL, "Molecule.get_SystemBathInteraction")
+    loops = [n for n in ast.walk(fn) if isinstance(n, ast.For) and ast.unparse(n.iter) == "range(ntr)"]
+    if len(loops) != 1:
+        raise Untranslatable("get_SystemBathInteraction: loop over the transition baths found %d times" % len(loops))
+    tfn = ast.parse(T_MOLPROJ).body[0]
+    env = {}
+    unify(tfn.body, _live(loops[0].body), env, "get_SystemBathInteraction")
+    ez = {"states_before": "sb", "states_inc": "(sb + nth state ldim 0%nat)%nat", "state": "state"}
+
+    def nat(node):
+        key = ast.unparse(node)
+        if key in ez:
+            return ez[key]
+        if isinstance(node, ast.Constant) and isinstance(node.value, int) and not isinstance(node.value, bool) and node.value >= 0:
+            return "%d%%nat" % node.value
+        if isinstance(node, ast.BinOp) and isinstance(node.op, ast.Add):
+            return "(%s + %s)%%nat" % (nat(node.left), nat(node.right))
+        if isinstance(node, ast.Subscript) and ast.unparse(node.value) == "ldim":
+            return "(nth %s ldim 0%%nat)" % nat(node.slice)
+        raise Untranslatable("get_SystemBathInteraction: index expression %s" % key[:60])
+    if ast.unparse(env["H_sb0"]) != "0" or ast.unparse(env["H_khi"]) != "state":
+        raise Untranslatable("get_SystemBathInteraction: offset starts at %s and runs to %s" % (ast.unparse(env["H_sb0"]), ast.unparse(env["H_khi"])))
+    if ast.unparse(env["H_inc"]) != "ldim[k]":
+        raise Untranslatable("get_SystemBathInteraction: offset advanced by %s" % ast.unparse(env["H_inc"]))
+    if ast.unparse(env["H_sinc"]) != "states_before + ldim[state]":
+        raise Untranslatable("get_SystemBathInteraction: block end %s" % ast.unparse(env["H_sinc"]))
+    d = dict(r0=nat(env["H_r0"]), r1=nat(env["H_r1"]), c0=nat(env["H_c0"]), c1=nat(env["H_c1"]), cnt=nat(env["H_cnt"]))
+    text = """
+(* ---- system parts of the bath couplings, GENERATED by harness/translate_c16.py from aggregate_base.py:_build (site projectors,
+   electronic and vibronic branch) and molecules.py:Molecule.get_SystemBathInteraction (projector on the block of one electronic state):
+   zero operators into which 1 is stored at diagonal positions only ---- *)
+From QV Require Import Proofs.C16diag Proofs.C16sysops.
+Section GenSysOps.
+  Context {R : StarRing}.
+  (* aggregate: for j in (the basis states of site i): op1.data[j, j] = 1.0 *)
+  Definition gen_agg_sysop (js : list nat) : @mat R := stores_skel (fun j => j) (fun j => j) js.
+  Lemma gen_agg_sysop_is_projector js a b : gen_agg_sysop js a b = site_projector js a b.
+  Proof. apply stores_skel_is_projector. Qed.
+  Lemma gen_agg_sysop_diagonal dim js : diagonal dim (gen_agg_sysop js).
+  Proof. intros i j Hi Hj Hne. rewrite gen_agg_sysop_is_projector. exact (site_projector_diagonal dim js i j Hi Hj Hne). Qed.
+  (* molecule: states_before = sum of ldim below `state`; KK[r0:r1, c0:c1] = diag(ones(cnt)) *)
+  Definition gen_mol_sysop (ldim : list nat) (state : nat) : @mat R :=
+    let sb := list_sum (firstn state ldim) in block_skel %(r0)s %(r1)s %(c0)s %(c1)s %(cnt)s.
+  Lemma gen_mol_sysop_is_projector ldim state a b :
+    gen_mol_sysop ldim state a b = block_projector (list_sum (firstn state ldim)) (list_sum (firstn state ldim) + nth state ldim 0%%nat)%%nat a b.
+  Proof.
+    unfold gen_mol_sysop. cbv zeta. rewrite <- block_skel_is_projector. f_equal. lia.
+  Qed.
+  Lemma gen_mol_sysop_diagonal dim ldim state : diagonal dim (gen_mol_sysop ldim state).
+  Proof. intros i j Hi Hj Hne. rewrite gen_mol_sysop_is_projector. exact (block_projector_diagonal dim _ _ i j Hi Hj Hne). Qed.
+End GenSysOps.
+""" % d
+    return text, ["aggregate_base.py:AggregateBase._build (system operators: site projectors, electronic and vibronic branch)",
+                  "molecules.py:Molecule.get_SystemBathInteraction (projector on the block of one electronic state: offset, block, diagonal of ones)"]
+
+
+T_MOLPROJ = '''
+def f():
+    KK = numpy.zeros((totdim, totdim), dtype=REAL)
+    state = d[n]
+    states_before = H_sb0
+    for k in range(H_khi):
+        states_before += H_inc
+    states_inc = H_sinc
+    KK[H_r0:H_r1, H_c0:H_c1] = numpy.diag(numpy.ones(H_cnt, dtype=REAL))
+    sys_operators.append(KK)
+'''
